@@ -194,13 +194,29 @@ Fixpoint remove_pend (t : Z) (l : list (Z * preq)) : list (Z * preq) :=
 Definition is_pending (s : state) (t : Z) : bool :=
   match lookup_pend t (pend s) with Some _ => true | None => false end.
 
+(* ---- a wake-up that is not a notification -------------------------------------
+   cond.wait(m_lock) also returns when somebody calls photon::thread_interrupt on the
+   parked thread (waitq::wait -> thread_usleep returns -1/EINTR); RangeLock ignores the
+   result of wait, so the thread continues exactly as after a notification.  The thread
+   leaves the node's wait queue and becomes runnable. *)
+Definition unpark1 (u : Z) (e : entry) : entry :=
+  mkE (e_off e) (e_len e) (e_id e) (filter (fun v => negb (v =? u)) (e_wait e)).
+Definition unpark (u : Z) (l : list entry) : list entry := map (unpark1 u) l.
+Definition is_parked (s : state) (u : Z) : bool :=
+  existsb (fun e => existsb (Z.eqb u) (e_wait e)) (idx s).
+Definition interrupt (s : state) (t u : Z) : state * list ev :=
+  if is_parked s u
+  then (mkSt (unpark u (idx s)) (nid s) (pend s) (ready s ++ [u]), [EvRet t 0])
+  else (s, [EvRet t (-1)]).             (* target not parked in this RangeLock: nothing to model *)
+
 Inductive op :=
 | OTry     (t : Z) (k : kind) (o l : Z)
 | OUnlock  (t : Z) (o l : Z)
 | OUnlockH (t : Z) (h : Z)
-| OAdjust  (t : Z) (h : option Z) (o l : Z).
+| OAdjust  (t : Z) (h : option Z) (o l : Z)
+| OInterrupt (t : Z) (u : Z).
 Definition op_tid (c : op) : Z :=
-  match c with OTry t _ _ _ => t | OUnlock t _ _ => t | OUnlockH t _ => t | OAdjust t _ _ _ => t end.
+  match c with OTry t _ _ _ => t | OUnlock t _ _ => t | OUnlockH t _ => t | OAdjust t _ _ _ => t | OInterrupt t _ => t end.
 
 (* one atomic step: thread [op_tid c] calls a method and runs it until it returns or parks *)
 Definition exec_op (s : state) (c : op) : state * list ev :=
@@ -210,6 +226,7 @@ Definition exec_op (s : state) (c : op) : state * list ev :=
        | OUnlock t o l   => unlock_range s t o l
        | OUnlockH t h    => unlock_handle s t h
        | OAdjust t h o l => adjust_range s t h o l
+       | OInterrupt t u  => interrupt s t u
        end.
 
 (* one atomic step: a notified thread [t] resumes after cond.wait (36-37, 67-68, 79-83).
